@@ -67,29 +67,48 @@ class Node:
 
 
 def expected_lines(node, out, d):
-    """Append (marker, expected full line) pairs for every element below node; d = enclosing directive count."""
+    """Append (marker, expected line, how) for every element below node; d = enclosing directive count.
+    how = "exact": the whole line is fixed by the statement (3*d spaces + the element's own text);
+    how = ("lead", text): the line must start with exactly 3*d spaces followed by a non-space leader and contain
+    the element's own text (the spelling of enumerators, of the argument separator and of trailing blanks is not
+    fixed by the statement)."""
     ind = "   " * d
     for ch in node.children:
         if ch.kind == "text":
             for j, ln in enumerate(ch.lines):
-                out.append((ch.markers[j], ind + ln))
+                out.append((ch.markers[j], ind + ln, "exact"))
         elif ch.kind == "field":
-            out.append((ch.marker, f"{ind}:{ch.name}: {ch.text}"))
+            out.append((ch.marker, f"{ind}:{ch.name}: {ch.text}", ("lead", [f":{ch.name}:", ch.text])))
         elif ch.kind == "bul":
             for j, it in enumerate(ch.items):
-                out.append((ch.markers[j], f"{ind}* {it}"))
+                out.append((ch.markers[j], f"{ind}* {it}", ("lead", [it])))
         elif ch.kind == "enum":
             for j, it in enumerate(ch.items):
-                out.append((ch.markers[j], f"{ind}{j + 1}. {it}"))
+                out.append((ch.markers[j], f"{ind}{j + 1}. {it}", ("lead", [str(j + 1), it])))
         elif ch.kind == "dir":
-            out.append((ch.marker, f"{ind}.. {ch.name}:: {','.join(ch.args)}"))
+            out.append((ch.marker, f"{ind}.. {ch.name}:: {','.join(ch.args)}", ("lead", [f".. {ch.name}::"] + list(ch.args))))
             if ch.options_judged:
                 for (m, name, val) in ch.options:
-                    out.append((m, f"{ind}   :{name}: {val}"))
+                    out.append((m, f"{ind}   :{name}: {val}", ("lead", [f":{name}:", val])))
             expected_lines(ch, out, d + 1)
         elif ch.kind == "section":
-            out.append((ch.marker, ch.title))
+            out.append((ch.marker, ch.title, "exact"))
             expected_lines(ch, out, d)
+
+
+def line_ok(got, want, how):
+    if how == "exact":
+        return got == want
+    n = len(want) - len(want.lstrip(" "))
+    if got[:n] != " " * n or len(got) <= n or got[n] == " ":
+        return False
+    pos = n
+    for part in how[1]:
+        k = got.find(part, pos)
+        if k < 0:
+            return False
+        pos = k + len(part)
+    return True
 
 
 def unjudged_markers(node, acc):
@@ -238,21 +257,22 @@ def check_text(text, root, headers, where):
         for m in _MK.findall(ln):
             pos.setdefault(m, ln_no)
     # --- every element line: exact indentation + own text
-    for m, want in exp:
+    for m, want, how in exp:
         if m not in pos:
             viols.append(viol("element-missing", f"{where}: {want!r} is not in the serialised document"))
             continue
         got = lines[pos[m]]
-        if got != want:
+        if not line_ok(got, want, how):
             kind = "indentation" if got.strip() == want.strip() else "content"
-            viols.append(viol("element-line", f"{where}: line {got!r}, expected {want!r}", kind=kind))
+            viols.append(viol("element-line", f"{where}: line {got!r}, expected {want!r}"
+                              + ("" if how == "exact" else " (leader spelling free)"), kind=kind))
     # --- nothing that was cleared / never added
-    known = {m for m, _ in exp} | skip
+    known = {m for m, _w, _h in exp} | skip
     stray = [m for m in pos if m not in known]
     if stray:
         viols.append(viol("stale-element", f"{where}: markers {stray[:4]} should not be in the document (cleared or detached)"))
     # --- order (depth-first insertion order, options before content)
-    want_seq = [m for m, _ in exp if m in pos]
+    want_seq = [m for m, _w, _h in exp if m in pos]
     got_seq = sorted((m for m in pos if m in known and m not in skip), key=lambda m: pos[m])
     # several markers may share one line (directive arguments): compare by line number, stably
     if [pos[m] for m in want_seq] != sorted(pos[m] for m in want_seq):
